@@ -959,7 +959,8 @@ fn run_misc(case: &str, ctx: &mut Ctx, drv: &mut Driver, rep: &mut Report) {
                 }
                 "special-pipe" => {
                     let (out, _) = run_cmd_close_after(&mut mk(&[]), 0);
-                    if out.exit() != want || !out.stderr.is_empty() {
+                    // (the pipe contract, status 0, or — if rg happened to write before the pipe was closed — the ordinary status)
+                    if (out.exit() != want && out.exit() != 0) || !out.stderr.is_empty() {
                         problems.push((format!("rg {} into a closed pipe: exit {} stderr {}", mode.join(" "), out.exit(), show(&out.stderr)), ""));
                     }
                 }
